@@ -108,6 +108,8 @@ structure State where
   used : List Nat := []
   files : Files := {}
   alive : Bool := true
+  /-- the records `DB.Start` still has to replay (non-empty only between `openBegin` and the last `replayOne`) -/
+  replaying : List Wal.Rec := []
 deriving Repr
 
 inductive Act where
@@ -129,6 +131,11 @@ inductive Act where
   | orphan (id : Nat) (run : Run)
   | crash
   | open (id : Nat) (rots : List Nat)
+  /-- `dkv.Open` up to the start of the replay loop of `DB.Start` (`open` = `openBegin` + all `replayOne` at once) -/
+  | openBegin (id : Nat)
+  /-- one iteration of the replay loop: `Put`/`Delete` of the next record; flush and compaction tasks started by
+  earlier iterations may begin and commit in between, and the process may crash in between -/
+  | replayOne (rot : Bool)
 deriving Repr
 
 def writeTables (f : Files) (ts : List Tbl) : Files :=
@@ -223,13 +230,26 @@ def restore (files : Files) (c : Ckpt) (rots : List Nat) : Option State :=
   | none => none
   | some recs => replay (restoreBase files c) recs rots
 
+/-- while `DB.Start` is replaying, its caller has no database yet: only the background tasks, the replay itself
+and a crash can happen -/
+def blocked (s : State) : Act → Bool
+  | .flushBegin _ | .flushCommit | .compact .. | .orphan .. | .crash | .replayOne _ => false
+  | _ => !s.replaying.isEmpty
+
 def step (s : State) : Act → Option State
   | .open id rots =>
     match loadCkpt s.files id with
     | none => none
     | some c => restore s.files c rots
+  | .openBegin id =>
+    match loadCkpt s.files id with
+    | none => none
+    | some c =>
+      match walRead c.recs c.after with
+      | none => none
+      | some recs => some { restoreBase s.files c with replaying := recs }
   | a =>
-    if !s.alive then none else
+    if !s.alive || blocked s a then none else
     match a with
     | .write del k v rot => writeStep s del k v rot
     | .flushBegin n =>
@@ -280,7 +300,15 @@ def step (s : State) : Act → Option State
       if id < s.db.nextId then none else
       some { s with files := { s.files with tables := (id, run) :: s.files.tables } }
     | .crash => some { s with alive := false }
+    | .replayOne rot =>
+      match s.replaying with
+      | [] => none
+      | r :: rs =>
+        match writeStep s r.del r.key r.val rot with
+        | none => none
+        | some s' => some { s' with replaying := rs }
     | .open _ _ => none
+    | .openBegin _ => none
 
 def run (s : State) : List Act → Option State
   | [] => some s
@@ -317,14 +345,15 @@ def stepSpec (s : State) (sp : SpecSt) : Act → SpecSt
                                  handles := sp.handles.filter (fun h => h != id), lost := sp.lost.filter (fun h => h != id) }
   | .saveDoc id => { sp with handles := if s.ckpts.any (fun c => c.id == id) then id :: sp.handles else sp.handles }
   | .retain ids => { sp with handles := sp.handles.filter (keeps ids), lost := sp.lost.filter (keeps ids) }
-  | .open id _ => { sp with m := specAt sp.saved id,
-                             handles := sp.handles.filter (fun h => decide (h ≤ id)),
-                             lost := (sp.lost ++ sp.handles.filter (fun h => decide (h < id))).filter (fun h => decide (h ≤ id)) }
+  | .open id _ | .openBegin id =>
+    { sp with m := specAt sp.saved id,
+              handles := sp.handles.filter (fun h => decide (h ≤ id)),
+              lost := (sp.lost ++ sp.handles.filter (fun h => decide (h < id))).filter (fun h => decide (h ≤ id)) }
   | _ => sp
 
 /-- an instance is only ever opened from a completed handle of a checkpoint that is still retained (what a job does) -/
 def guardOk (s : State) : Act → Bool
-  | .open id _ => retainedDone s id
+  | .open id _ | .openBegin id => retainedDone s id
   | _ => true
 
 /-- histories with their specification -/
